@@ -201,7 +201,7 @@ theorem normTree_leaf (n : List UInt8) (v : Option (List UInt8)) :
 structure NestStyle (k : Kind) (cfg : Cfg) (openL : LineDecor → List UInt8 → List UInt8) : Prop where
   optLine : ∀ (e : List (List UInt8)) (s : St) (src : Src) (prev : Nat) (junk n pre post tr rest : List UInt8)
     (ov : Option (List UInt8)),
-    Clean e s.path → s.valid = 0 → visSkip false junk = some false → nameOk n = true →
+    Clean e s.path → s.valid = 0 → visSkip false junk = some false → nameOk n = true → ncheck n cfg.opt = none →
     pre.all isBlank = true → post.all isBlank = true → trailOk tr = true → OptValOk ov →
     src.rest = junk ++ n ++ pre ++ 61 :: (post ++ valueText ov ++ tr ++ 10 :: rest) →
     ∃ s' src', next k cfg prev s src = ((if (valueOf ov).isEmpty then 3 else 7 : Int), s', src')
@@ -211,7 +211,7 @@ structure NestStyle (k : Kind) (cfg : Cfg) (openL : LineDecor → List UInt8 →
   openLine : ∀ (e : List (List UInt8)) (s : St) (src : Src) (prev : Nat) (J : List UInt8) (dl : LineDecor)
     (n rest : List UInt8),
     Clean e s.path → s.valid = 0 → visSkip false J = some false → dl.ok = true → nameOk n = true →
-    src.rest = J ++ openL dl n ++ rest →
+    ncheck n cfg.sect = none → src.rest = J ++ openL dl n ++ rest →
     ∃ s' src' J', next k cfg prev s src = (1, s', src')
       ∧ (∃ l fi' v' ln', s' = Stt (e ++ [n]) l false fi' v' (Flag.section_ ||| Flag.name) ln')
       ∧ visSkip false J' = some false ∧ src'.rest = J' ++ rest
@@ -233,7 +233,8 @@ include hst hd
 def TreeClaim (t : Tree) : Prop :=
   ∀ (kk dep : Nat) (e : List (List UInt8)) (b : Build) (prev : Nat) (s : St) (src : Src) (J rest : List UInt8)
     (first : Bool),
-    treeOk t = true → Ready e s src J (renderTree openL d kk t ++ rest) → Mode first dep b prev →
+    treeOk t = true → treeFits cfg.sect cfg.opt t = true → Ready e s src J (renderTree openL d kk t ++ rest) →
+    Mode first dep b prev →
     HasSpine dep b.forest →
     ∃ (b' : Build) (prev' : Nat) (s' : St) (src' : Src) (J' : List UInt8),
       Ready e s' src' J' rest ∧ Mode false dep b' prev' ∧ b'.forest = appendAt dep b.forest (normTree t)
@@ -244,7 +245,8 @@ def TreeClaim (t : Tree) : Prop :=
 def ForestClaim (f : Forest) : Prop :=
   ∀ (kk dep : Nat) (e : List (List UInt8)) (b : Build) (prev : Nat) (s : St) (src : Src) (J rest : List UInt8)
     (first : Bool),
-    nodesOk f = true → Ready e s src J (renderNest openL d kk f ++ rest) → Mode first dep b prev →
+    nodesOk f = true → forestFits cfg.sect cfg.opt f = true → Ready e s src J (renderNest openL d kk f ++ rest) →
+    Mode first dep b prev →
     HasSpine dep b.forest →
     ∃ (b' : Build) (prev' : Nat) (s' : St) (src' : Src) (J' : List UInt8),
       Ready e s' src' J' rest ∧ Mode (first && f.isEmpty) dep b' prev'
@@ -253,7 +255,7 @@ def ForestClaim (f : Forest) : Prop :=
 
 omit hst hd in
 theorem forestClaim_nil : ForestClaim (k := k) (cfg := cfg) (openL := openL) d [] := by
-  intro kk dep e b prev s src J rest first _ hr hm hs
+  intro kk dep e b prev s src J rest first _ _ hr hm hs
   refine ⟨b, prev, s, src, J, ?_, by simpa using hm, ?_, hs, rfl⟩
   · simpa [renderNest] using hr
   · simp [norm, appendAll]
@@ -262,21 +264,24 @@ omit hst hd in
 theorem forestClaim_cons (t : Tree) (ts : Forest) (ht : TreeClaim (k := k) (cfg := cfg) (openL := openL) d t)
     (hts : ForestClaim (k := k) (cfg := cfg) (openL := openL) d ts) :
     ForestClaim (k := k) (cfg := cfg) (openL := openL) d (t :: ts) := by
-  intro kk dep e b prev s src J rest first hok hr hm hs
+  intro kk dep e b prev s src J rest first hok hfit hr hm hs
   have hok' : treeOk t = true ∧ nodesOk ts = true := by simpa [nodesOk] using hok
+  have hfit' : treeFits cfg.sect cfg.opt t = true ∧ forestFits cfg.sect cfg.opt ts = true := by
+    simpa [forestFits] using hfit
   have hr1 : Ready e s src J (renderTree openL d kk t ++ (renderNest openL d (kk + treeLines t) ts ++ rest)) := by
     have := hr.src
     exact ⟨hr.clean, hr.valid, hr.junk, by rw [this]; simp [renderNest, List.append_assoc]⟩
-  obtain ⟨b1, prev1, s1, src1, J1, hr2, hm1, hf1, hs1, heq1⟩ := ht kk dep e b prev s src J _ first hok'.1 hr1 hm hs
+  obtain ⟨b1, prev1, s1, src1, J1, hr2, hm1, hf1, hs1, heq1⟩ := ht kk dep e b prev s src J _ first hok'.1 hfit'.1 hr1 hm hs
   obtain ⟨b2, prev2, s2, src2, J2, hr3, hm2, hf2, hs2, heq2⟩ :=
-    hts (kk + treeLines t) dep e b1 prev1 s1 src1 J1 rest false hok'.2 hr2 hm1 hs1
+    hts (kk + treeLines t) dep e b1 prev1 s1 src1 J1 rest false hok'.2 hfit'.2 hr2 hm1 hs1
   refine ⟨b2, prev2, s2, src2, J2, hr3, by simpa using hm2, ?_, hs2, heq1.trans heq2⟩
   rw [hf2, hf1]; simp [norm, appendAll]
 
 /-- a node without children written as `name=value` -/
 theorem treeClaim_option (n : List UInt8) (v : Option (List UInt8)) (kk dep : Nat) (e : List (List UInt8)) (b : Build)
     (prev : Nat) (s : St) (src : Src) (J rest : List UInt8) (first : Bool)
-    (hok : treeOk (.node n v []) = true) (hr : Ready e s src J (optionLine (d kk) n v ++ rest))
+    (hok : treeOk (.node n v []) = true) (hfit : nameFits cfg.opt n = true)
+    (hr : Ready e s src J (optionLine (d kk) n v ++ rest))
     (hm : Mode first dep b prev) (hs : HasSpine dep b.forest) :
     ∃ (b' : Build) (prev' : Nat) (s' : St) (src' : Src) (J' : List UInt8),
       Ready e s' src' J' rest ∧ Mode false dep b' prev' ∧ b'.forest = appendAt dep b.forest (normTree (.node n v []))
@@ -296,8 +301,8 @@ theorem treeClaim_option (n : List UInt8) (v : Option (List UInt8)) (kk dep : Na
     rw [hr.src]
     cases v <;> simp [optionLine, valueText, List.append_assoc]
   obtain ⟨s1, src1, heq, ⟨l, kq, fi', ln', hs1, htake⟩, hrest⟩ :=
-    hst.optLine e s src prev _ n (d kk).pre (d kk).post (d kk).trail rest v hr.clean hr.valid hjunk hok'.1 hpre hpost
-      htr hok'.2 hsrc
+    hst.optLine e s src prev _ n (d kk).pre (d kk).post (d kk).trail rest v hr.clean hr.valid hjunk hok'.1
+      (nameFits_ncheck _ _ hfit) hpre hpost htr hok'.2 hsrc
   have hlen : n.length < 65535 := by
     have := hok'.1
     simp only [nameOk, Bool.and_eq_true, decide_eq_true_eq] at this
@@ -339,7 +344,8 @@ theorem nodeAppend_end_first (dep : Nat) (b : Build) (prev : Nat) (s1 : St) (hmo
 theorem treeClaim_empty (n : List UInt8) (v : Option (List UInt8)) (c : CloseDecor) (kk dep : Nat)
     (e : List (List UInt8)) (b : Build)
     (prev : Nat) (s : St) (src : Src) (J rest : List UInt8) (first : Bool)
-    (hok : treeOk (.node n v []) = true) (hv : valueless v = true) (hc : (d kk).close = some c)
+    (hok : treeOk (.node n v []) = true) (hfit : nameFits cfg.sect n = true) (hv : valueless v = true)
+    (hc : (d kk).close = some c)
     (hr : Ready e s src J (openL (d kk) n ++ closeLine c.line ++ rest))
     (hm : Mode first dep b prev) (hs : HasSpine dep b.forest) :
     ∃ (b' : Build) (prev' : Nat) (s' : St) (src' : Src) (J' : List UInt8),
@@ -362,7 +368,7 @@ theorem treeClaim_empty (n : List UInt8) (v : Option (List UInt8)) (c : CloseDec
   have hsrc : src.rest = J ++ openL (d kk) n ++ (closeLine c.line ++ rest) := by
     rw [hr.src]; simp [List.append_assoc]
   obtain ⟨s1, src1, J1, heq, ⟨l, fi', v', ln', hs1⟩, hJ1, hrest⟩ :=
-    hst.openLine e s src prev J (d kk) n _ hr.clean hr.valid hr.junk hdk hn hsrc
+    hst.openLine e s src prev J (d kk) n _ hr.clean hr.valid hr.junk hdk hn (nameFits_ncheck _ _ hfit) hsrc
   have hna := nodeAppend_new first dep b prev s1 1 e n none hm (Or.inl ⟨rfl, rfl⟩) (by rw [hs1]; rfl) hlen
   have hstep := loop_step k cfg b _ prev s s1 src src1 1 _ heq (by decide) hna
     (by rw [hs1]; exact afterSave_inv _ _ _ _)
@@ -390,20 +396,27 @@ theorem treeClaim_empty (n : List UInt8) (v : Option (List UInt8)) (c : CloseDec
 
 theorem treeClaim_leaf (n : List UInt8) (v : Option (List UInt8)) :
     TreeClaim (k := k) (cfg := cfg) (openL := openL) d (.node n v []) := by
-  intro kk dep e b prev s src J rest first hok hr hm hs
+  intro kk dep e b prev s src J rest first hok hfit hr hm hs
   have hrt : renderTree openL d kk (.node n v []) = leafLines openL (d kk) n v := by simp [renderTree]
   rw [hrt] at hr
+  simp only [treeFits, List.isEmpty_nil, ↓reduceIte, Bool.and_eq_true, Bool.or_eq_true, Bool.not_eq_eq_eq_not,
+    Bool.not_true] at hfit
   unfold leafLines at hr
   split at hr
   · rename_i c hc hv
-    exact treeClaim_empty hst d hd n v c kk dep e b prev s src J rest first hok hv hc hr hm hs
-  · exact treeClaim_option hst d hd n v kk dep e b prev s src J rest first hok hr hm hs
+    have hfs : nameFits cfg.sect n = true := by
+      rcases hfit.2 with h | h
+      · rw [hv] at h; cases h
+      · exact h
+    exact treeClaim_empty hst d hd n v c kk dep e b prev s src J rest first hok hfs hv hc hr hm hs
+  · exact treeClaim_option hst d hd n v kk dep e b prev s src J rest first hok hfit.1 hr hm hs
 
 theorem treeClaim_section (n : List UInt8) (v : Option (List UInt8)) (cs : Forest) (hne : cs ≠ [])
     (hcs : ForestClaim (k := k) (cfg := cfg) (openL := openL) d cs) :
     TreeClaim (k := k) (cfg := cfg) (openL := openL) d (.node n v cs) := by
-  intro kk dep e b prev s src J rest first hok hr hm hs
+  intro kk dep e b prev s src J rest first hok hfit hr hm hs
   have hce : cs.isEmpty = false := by simpa using hne
+  simp only [treeFits, hce, Bool.false_eq_true, ↓reduceIte, Bool.and_eq_true] at hfit
   have hok' : nameOk n = true ∧ v = none ∧ nodesOk cs = true := by
     simp only [treeOk, hce, Bool.false_eq_true, ↓reduceIte, Bool.and_eq_true, Option.isNone_iff_eq_none] at hok
     exact ⟨hok.1, hok.2.1, hok.2.2⟩
@@ -420,7 +433,7 @@ theorem treeClaim_section (n : List UInt8) (v : Option (List UInt8)) (cs : Fores
     rw [hr.src]
     simp [renderTree, hce, List.append_assoc, k2]
   obtain ⟨s1, src1, J1, heq, ⟨l, fi', v', ln', hs1⟩, hJ1, hrest⟩ :=
-    hst.openLine e s src prev J (d kk) n _ hr.clean hr.valid hr.junk hdk hn hsrc
+    hst.openLine e s src prev J (d kk) n _ hr.clean hr.valid hr.junk hdk hn (nameFits_ncheck _ _ hfit.1) hsrc
   have hna := nodeAppend_new first dep b prev s1 1 e n none hm (Or.inl ⟨rfl, rfl⟩) (by rw [hs1]; rfl) hlen
   have hstep := loop_step k cfg b _ prev s s1 src src1 1 _ heq (by decide) hna
     (by rw [hs1]; exact afterSave_inv _ _ _ _)
@@ -431,7 +444,7 @@ theorem treeClaim_section (n : List UInt8) (v : Option (List UInt8)) (cs : Fores
       J1 (renderNest openL d (kk + 1) cs ++ (closeLine (d k2) ++ rest)) :=
     ⟨clean_pth _ _, rfl, hJ1, hrest⟩
   obtain ⟨b2, prev2, s2, src2, J2, hr2, hm2, hf2, hs2, heq2⟩ :=
-    hcs (kk + 1) (dep + 1) (e ++ [n]) _ s1.curr _ src1 _ _ true hcok hready1 hmode1
+    hcs (kk + 1) (dep + 1) (e ++ [n]) _ s1.curr _ src1 _ _ true hcok hfit.2 hready1 hmode1
       (hasSpine_appendAt_succ dep b.forest n none [] hs)
   simp only [hce, Bool.and_false] at hm2
   -- the section end line
@@ -468,13 +481,13 @@ theorem forestClaim_all : ∀ f, ForestClaim (k := k) (cfg := cfg) (openL := ope
     exact forestClaim_cons d t ts iht ihts
 
 /-- the element loop on a whole text in a nested style, from any clean parser state -/
-theorem loop_nest (f : Forest) (hok : nodesOk f = true) (s : St) (prev : Nat)
+theorem loop_nest (f : Forest) (hok : nodesOk f = true) (hfit : forestFits cfg.sect cfg.opt f = true) (s : St) (prev : Nat)
     (hprev : prev ≠ 0 ∧ prev &&& Flag.sectEnd = 0)
     (hclean : Clean [] s.path) (hv : s.valid = 0) (tail : List UInt8) (b : Bool) (htail : visSkip false tail = some b) :
     (loop k cfg nodeAppend ({} : Build) prev s { rest := renderNest openL d 0 f ++ tail }).code = 0
     ∧ (loop k cfg nodeAppend ({} : Build) prev s { rest := renderNest openL d 0 f ++ tail }).ctx.forest = norm f := by
   obtain ⟨b', prev', s', src', J', hr, _, hf, _, heq⟩ :=
-    forestClaim_all hst d hd f 0 0 [] ({} : Build) prev s { rest := renderNest openL d 0 f ++ tail } [] tail true hok
+    forestClaim_all hst d hd f 0 0 [] ({} : Build) prev s { rest := renderNest openL d 0 f ++ tail } [] tail true hok hfit
       ⟨hclean, hv, rfl, by simp⟩ (by simp [Mode, hprev.1, hprev.2]) trivial
   obtain ⟨s2, src2, heof⟩ := hst.eof s' src' prev' (J' ++ tail) b hr.clean
     (visSkip_append _ _ _ _ _ hr.junk htail) hr.src
@@ -488,18 +501,18 @@ end induction
 
 /-! ### brace style: `mpt_parse_format_pre`, default format -/
 
-theorem nestStyle_B : NestStyle .pre cfgB openLine where
+theorem nestStyle_B (fs fo : Nat) : NestStyle .pre (cfgB fs fo) openLine where
   optLine := by
-    intro e s src prev junk n pre post tr rest ov h1 h2 h3 h4 h5 h6 h7 h8 h9
+    intro e s src prev junk n pre post tr rest ov h1 h2 h3 h4 hnc h5 h6 h7 h8 h9
     simp only [next]
-    exact pre_option_line e s src junk n pre post tr rest ov h1 h2 h3 h4 h5 h6 h7 h8 h9
+    exact pre_option_line e s src junk n pre post tr rest ov h1 h2 h3 h4 hnc h5 h6 h7 h8 h9
   openLine := by
-    intro e s src prev J dl n rest hclean hv hJ hdl hn hsrc
+    intro e s src prev J dl n rest hclean hv hJ hdl hn hnc hsrc
     obtain ⟨hpre, _, _, hht⟩ := LineDecor.ok_parts _ hdl
     have hjunk := visSkip_lead J dl hJ hdl
     have hsrc' : src.rest = (J ++ dl.before ++ dl.indent) ++ n ++ dl.pre ++ 123 :: ((headTrail dl ++ [10]) ++ rest) := by
       rw [hsrc]; simp [openLine, List.append_assoc]
-    obtain ⟨s1, src1, heq, hs1, hrest⟩ := pre_open_line e s src _ n dl.pre _ hclean hv hjunk hn hpre hsrc'
+    obtain ⟨s1, src1, heq, hs1, hrest⟩ := pre_open_line e s src _ n dl.pre _ hclean hv hjunk hn hnc hpre hsrc'
     exact ⟨s1, src1, headTrail dl ++ [10], by simp only [next]; exact heq, hs1, visSkip_headTrail _ hht, hrest⟩
   closeLine := by
     intro e m s src prev junk rest hclean hv hj hsrc
@@ -512,25 +525,28 @@ theorem nestStyle_B : NestStyle .pre cfgB openLine where
     exact ⟨s2, src2, by simp only [next]; exact h⟩
 
 /-- the element loop on a whole text in brace style (with insignificant text `tail` behind the last
-    element), from any clean parser state -/
-theorem loop_brace (d : Decor) (hd : d.ok) (f : Forest) (hok : nodesOk f = true) (s : St)
+    element), from any clean parser state, under the name restriction words `fs` / `fo` -/
+theorem loop_brace (fs fo : Nat) (d : Decor) (hd : d.ok) (f : Forest) (hok : nodesOk f = true)
+    (hfit : forestFits fs fo f = true) (s : St)
     (hclean : Clean [] s.path) (hv : s.valid = 0) (tail : List UInt8) (b : Bool) (htail : visSkip false tail = some b) :
-    (loop .pre cfgB nodeAppend ({} : Build) Flag.section_ s { rest := renderBrace d 0 f ++ tail }).code = 0
-    ∧ (loop .pre cfgB nodeAppend ({} : Build) Flag.section_ s { rest := renderBrace d 0 f ++ tail }).ctx.forest = norm f :=
-  loop_nest nestStyle_B d hd f hok s Flag.section_ (by decide) hclean hv tail b htail
+    (loop .pre (cfgB fs fo) nodeAppend ({} : Build) Flag.section_ s { rest := renderBrace d 0 f ++ tail }).code = 0
+    ∧ (loop .pre (cfgB fs fo) nodeAppend ({} : Build) Flag.section_ s { rest := renderBrace d 0 f ++ tail }).ctx.forest
+        = norm f :=
+  loop_nest (nestStyle_B fs fo) d hd f hok hfit s Flag.section_ (by decide) hclean hv tail b htail
 
-/-- **brace style is read back**: `mpt_parse_node` on an empty target, default format, all name flags,
-    applied to the text of an admissible forest with any valid decoration, succeeds with the normal
-    form of the forest -/
-theorem parseNode_brace (d : Decor) (hd : d.ok) (f : Forest) (hok : nodesOk f = true)
+/-- **brace style is read back**: `mpt_parse_node` on an empty target, default format, name restriction words
+    that permit the names of the forest, applied to the text of an admissible forest with any valid decoration,
+    succeeds with the normal form of the forest -/
+theorem parseNode_brace (fs fo : Nat) (d : Decor) (hd : d.ok) (f : Forest) (hok : nodesOk f = true)
+    (hfit : forestFits fs fo f = true)
     (tail : List UInt8) (b : Bool) (htail : visSkip false tail = some b) :
-    (parseNode [] none 0xff 0xff (-2) (renderBrace d 0 f ++ tail)).code = 0
-    ∧ (parseNode [] none 0xff 0xff (-2) (renderBrace d 0 f ++ tail)).children = norm f := by
-  have hcfg : ({ fmt := (parseFormat none).1, sect := 0xff, opt := 0xff, eof := -2 } : Cfg) = cfgB := rfl
+    (parseNode [] none fs fo (-2) (renderBrace d 0 f ++ tail)).code = 0
+    ∧ (parseNode [] none fs fo (-2) (renderBrace d 0 f ++ tail)).children = norm f := by
+  have hcfg : ({ fmt := (parseFormat none).1, sect := fs, opt := fo, eof := -2 } : Cfg) = cfgB fs fo := rfl
   have hkind : Kind.ofType (parseFormat none).2 = some .pre := by decide
-  obtain ⟨hcode, hforest⟩ := loop_brace d hd f hok ({} : St) clean_init rfl tail b htail
-  have hloop : parseConfig .pre cfgB nodeAppend ({} : Build) Flag.section_ (renderBrace d 0 f ++ tail)
-      = loop .pre cfgB nodeAppend ({} : Build) Flag.section_ ({} : St) { rest := renderBrace d 0 f ++ tail } := rfl
+  obtain ⟨hcode, hforest⟩ := loop_brace fs fo d hd f hok hfit ({} : St) clean_init rfl tail b htail
+  have hloop : parseConfig .pre (cfgB fs fo) nodeAppend ({} : Build) Flag.section_ (renderBrace d 0 f ++ tail)
+      = loop .pre (cfgB fs fo) nodeAppend ({} : Build) Flag.section_ ({} : St) { rest := renderBrace d 0 f ++ tail } := rfl
   unfold parseNode
   simp only [hkind, hcfg, hloop, hcode, hforest]
   simp
